@@ -552,7 +552,7 @@ class Run(object):
         nodes = repr(f._nodes) if hasattr(f, "_nodes") else repr(list(f))
         names = repr(sorted((str(l), sorted((str(k), v if v is not None else "F") for k, v in d.items()))
                             for l, d in f._names.items()))
-        idx = repr((sorted(f._index_conj.items()), sorted(f._index_disj.items())))
+        idx = repr((sorted(f._index_conj.items(), key=repr), sorted(f._index_disj.items(), key=repr)))
         mt = tuple((k, tuple(lit_table(self.mtabs, r, self.full) for r in refs)) for k, refs in m.meaning.items())
         mn = tuple(sorted((nm, tuple(sorted((l, lit_table(self.mtabs, r, self.full)) for l, r in e["labels"].items())),
                            tuple(sorted(set(lit_table(self.mtabs, r, self.full) for r in e["compound"]))))
